@@ -1017,8 +1017,11 @@ class StructRes(Res):
 class Func(object):
     """One wrapped function: a result atom, argument atoms, optional trailing defaults."""
 
-    def __init__(self, name, res, args, defaults=None, scope=None):
+    def __init__(self, name, res, args, defaults=None, scope=None, tag=None, template=None, generic=None):
         self.name = name
+        self.tag = tag or name  # what the subject logs; differs from name for overloads / template instantiations
+        self.template = template  # C++ type text of the instantiation of 'template<typename T> R name(T x, ...)'
+        self.generic = generic or []  # fortran_generic: native types the first argument is also offered as
         self.res = res
         self.args = args  # [(atom, argname)]
         self.defaults = defaults or {}  # argname -> (literal text, python value)   (Val atoms only)
@@ -1028,7 +1031,7 @@ class Func(object):
         ls = set(self.res.langs)
         for a, _ in self.args:
             ls &= set(a.langs)
-        if self.defaults or self.scope:
+        if self.defaults or self.scope or self.tag != self.name or self.template:
             ls &= {"cxx"}
         return ls
 
@@ -1071,7 +1074,10 @@ class Func(object):
         return "%s%s%s(%s)" % (rt, sep, self.name, ", ".join(ps) if ps else "void" if lang == "c" else "")
 
     def definition(self, lang):
-        lines = [self.cproto(lang), "{", '    vt_txt("RECV %s");' % self.name]
+        proto = self.cproto(lang)
+        if self.template:
+            proto = "template<> " + proto.replace(self.name + "(", "%s<%s>(" % (self.name, self.template), 1)
+        lines = [proto, "{", '    vt_txt("RECV %s");' % self.tag]
         posts = []
         for a, n in self.args:
             log, post = a.body(n, lang)
@@ -1106,6 +1112,16 @@ class Library(object):
         self.name = name  # library name, e.g. "Lone"
         self.funcs = [f for f in funcs if lang in f.langs()]
         self.lang = lang
+        # Fortran name to call: a generic interface exists only when a template has two or more instantiations;
+        # a single instantiation is reachable under <name>_<type> only
+        ninst = {}
+        for f in self.funcs:
+            if f.template:
+                ninst[f.name] = ninst.get(f.name, 0) + 1
+        for f in self.funcs:
+            f.fcall = f.name
+            if f.template and ninst[f.name] == 1:
+                f.fcall = "%s_%s" % (f.name, f.template.replace(" ", "_"))
 
     def needs(self):
         s = set()
@@ -1124,8 +1140,22 @@ class Library(object):
             decls.append(dict(CLASS_YAML))
         if "struct" in self.needs():
             decls.append({"decl": STRUCT_DECL + ";"})
+        templ = {}
         for f in self.funcs:
+            if f.template:
+                if f.name in templ:
+                    templ[f.name]["cxx_template"].append({"instantiation": "<%s>" % f.template})
+                    continue
+                a0, n0 = f.args[0]
+                d = f.decl().replace(a0.decl(n0)[0], "T %s" % n0, 1)
+                e = {"decl": "template<typename T> " + d, "cxx_template": [{"instantiation": "<%s>" % f.template}]}
+                templ[f.name] = e
+                decls.append(e)
+                continue
             e = {"decl": f.decl()}
+            if f.generic:
+                n0 = f.args[0][1]
+                e["fortran_generic"] = [{"decl": "(%s %s)" % (t.cname, n0)} for t in f.generic]
             decls.append(e)
         d = {"library": self.name, "cxx_header": self.header_name(), "language": "c" if self.lang == "c" else "c++",
              "options": dict(options or {}), "declarations": decls}
@@ -1146,7 +1176,15 @@ class Library(object):
             out.append(STRUCT_DECL + ";")
             if lang == "c":
                 out.append("typedef struct Pt Pt;")
+        seen_t = set()
         for f in self.funcs:
+            if f.template:
+                if f.name not in seen_t:
+                    seen_t.add(f.name)
+                    a0, n0 = f.args[0]
+                    out.append("template<typename T> " + f.cproto(lang).replace(a0.cparams(n0, lang)[0], "T %s" % n0, 1) + ";")
+                out.append("template<> " + f.cproto(lang).replace(f.name + "(", "%s<%s>(" % (f.name, f.template), 1) + ";")
+                continue
             out.append(f.cproto(lang, with_defaults=True) + ";")
         out.append("#endif")
         return "\n".join(out) + "\n"
@@ -1154,8 +1192,12 @@ class Library(object):
     def source(self):
         lang = self.lang
         out = [SUBJECT_PRELUDE, '#include "%s"' % self.header_name()]
+        seen = set()
         for f in self.funcs:
-            out += f.res.statics(lang)
+            for st in f.res.statics(lang):
+                if st not in seen:
+                    seen.add(st)
+                    out.append(st)
         for f in self.funcs:
             out.append(f.definition(lang))
         return "\n".join(out) + "\n"
